@@ -1,8 +1,3 @@
-CONSTANTS
-  MaxToks = 1
-  Big = FALSE
-  NRand = 0
-  Seed = 1
 INIT TraceInit
 NEXT TraceNext
 INVARIANTS Report
